@@ -150,6 +150,13 @@ class InlineMethod(_Inliner):
                     raise exceptions.RefactoringError(
                         "Cannot remove a definition that is outside the project."
                     )
+                if self.resource != self.original and self.project.is_ignored(
+                    self.resource
+                ):
+                    # found through an import; every symlink is ignored, too
+                    raise exceptions.RefactoringError(
+                        "Cannot remove a definition from an ignored resource."
+                    )
                 resources.append(self.resource)
         job_set = task_handle.create_jobset("Collecting Changes", len(resources))
         for file in resources:
@@ -273,6 +280,11 @@ class InlineVariable(_Inliner):
                 if self.resource.project != self.project:
                     raise exceptions.RefactoringError(
                         "Cannot remove a definition that is outside the project."
+                    )
+                if self.project.is_ignored(self.resource):
+                    # found through an import; every symlink is ignored, too
+                    raise exceptions.RefactoringError(
+                        "Cannot remove a definition from an ignored resource."
                     )
                 resources.append(self.resource)
         changes = ChangeSet("Inline variable <%s>" % self.name)
